@@ -292,6 +292,15 @@ def gen_impl_item(rng):
     lref = rng.random() < 0.5 and not assign
     rhs = rng.choice([ty, f"&{ty}", "u8", "&u8", None])
     self_ty = f"&{ty}" if lref else ty
+    if rng.random() < 0.2:
+        # operand types that are not single paths: sums (with and without a trailing `+`), parenthesized, tuples, arrays, fn pointers
+        odd = ["dyn Tr + Send", "dyn Tr +", "impl Tr + 'static", "(dyn Tr + Send)", "&(dyn Tr +)", "&'a (dyn Tr + 'a)", "(X)", "((X,), u8)",
+               "[X; 2]", "fn(X) -> X", "*const X", "<X as Tr>::Assoc", "Box<dyn Tr + Send>", "!", "&mut X", "&'static X"]
+        if rng.random() < 0.5:
+            rhs = rng.choice(odd)
+        else:
+            # (no trailing `+` in front of `where` / `{`)
+            self_ty = rng.choice([o for o in odd if not o.endswith("+")])
     trait = f"::core::ops::{tr}" + (f"<{rhs}>" if rhs else "")
     rty = rhs or self_ty
     if assign:
@@ -322,6 +331,9 @@ def fuzz_seeds(rng):
         ("Deref, DerefMut", "struct R<T: ?Sized>(Box<T>);"),
         ("Add, AddAssign", "impl<T> std::ops::Add<&X<T>> for &X<T> where Self: Sized { type Output = X<T>; fn add(self, rhs: &X<T>) -> X<T> { todo!() } }"),
         ("Sub", "impl std::ops::SubAssign<u8> for Y { fn sub_assign(&mut self, rhs: u8) {} }"),
+        ("Add", "impl Add<dyn Tr +> for X { type Output = X; fn add(self, rhs: dyn Tr +) -> X { self } }"),
+        ("Mul, MulAssign", "impl Mul<X> for dyn Tr + Send { type Output = X; fn mul(self, rhs: X) -> X { rhs } }"),
+        ("Shl", "impl ShlAssign<&(impl Tr +)> for (X) { fn shl_assign(&mut self, rhs: &(impl Tr +)) {} }"),
         ("Debug, Clone", "struct Dy { a: u8, t: dyn ::core::fmt::Debug + Send }"),
     ]
     for attr, item in items:
